@@ -457,11 +457,20 @@ func streamMergeScenario(r *R) {
 			terminal = err
 			if err == stream.End {
 				r.Probe("stream-merge-end")
-				// End is due as soon as the last input has ended, not when the inputs' Close calls get done
+				// End is due once the last input has ended and the inputs have been closed (an
+				// implementation may close its inputs before it announces the end, or after:
+				// "finishes exactly when all inputs are exhausted" is read as a condition, not as
+				// an instant - a correct refactoring that joins its input goroutines first must not
+				// be reported). What End may not wait for is anything else.
 				due := c.InvAt
 				for _, s := range srcs {
 					if s.EndAt > due {
 						due = s.EndAt
+					}
+					for _, at := range s.CloseRetAt {
+						if at > due && at <= c.RetAt {
+							due = at
+						}
 					}
 				}
 				if c.RetAt > due {
